@@ -250,7 +250,7 @@ PLANS["C11"] = dict(
 )
 PLANS["C12"] = dict(
     suites=[Suite("merged", 400, 30000), Suite("pos", 60, 3000)],     # `pos` carries the Repeat ordering ops (repcmp)
-    floors={"quick": {"op:merge": 300, "op:updchain": 1000, "op:upd": 2000, "op:repcmp": 64}},
+    floors={"quick": {"op:merge": 300, "op:updchain": 1000, "op:upd": 2000, "op:repcmp": 48}},
     assumptions=[],
 )
 
@@ -598,7 +598,7 @@ def extra_c20(prop, tier, seed, profiles):
 
 PLANS["C20"] = dict(
     suites=[Suite("ext", 800, 40000), Suite("pos", 800, 30000), Suite("tl", 150, 8000), Suite("anim", 150, 8000), Suite("merged", 60, 3000), Suite("lerp", 1500, 50000)],
-    floors={"quick": {"ext-pos-values": 20000, "ext-upd-values": 2000, "op:pos": 1000}},
+    floors={"quick": {"ext-pos-values": 20000, "ext-upd-values": 2000, "op:pos": 700}},
     extra=extra_c20,
     recognisers={"c20b_overshoot": rec_c20b_overshoot},
     profiles_must_agree=True,
@@ -797,9 +797,9 @@ def extra_bevy(prop, tier, seed, profiles):
             # start of this frame and the chain maps k -> k' (last entry for k wins, HashMap insert): this frame moves the
             # selector to k'.  (chain_animations reads the events of frame M in frame M+1.)
             if cfg["chain"] != "none" and prev.get("own_end") and prev["enabled"] and not other_ext and prev["key"] is not None \
-                    and prev["key"] == frame_key and prev["ev"].count(3) == 1:
-                # (exactly one Ended event pending for the entity: a second one — the other animator's, finding F-C19 —
-                # would advance the chain a second time)
+                    and prev["key"] == frame_key and prev["ev"].count(3) == 1 and 3 not in cur["ev"]:
+                # (exactly one Ended event pending for the entity and none sent in this frame: a second one — the other
+                # animator's, finding F-C19, which the chain may even read in the frame it is sent — would advance the chain again)
                 cmap = {}
                 for pair in cfg["chain"].split(","):
                     a, b2 = pair.split(">"); cmap[int(a)] = int(b2)
@@ -898,7 +898,7 @@ PLANS["C18"] = dict(suites=[Suite("bevy", 300, 15000, crate="bevy")], floors={"q
                     recognisers={"c18b_inexact_timing": rec_c18b_inexact_timing},
                     assumptions=["bevy's scheduler, change detection and event buffering are abstracted (one entity; events of frame N readable in frame N+1; the order of systems bevy leaves unordered is a parameter and the implementation must follow one order consistently) and exercised by the real App with a hand-driven Time",
                                  "the timeline in place when Ended was reached (set_timeline while Ended does not restart, as documented)"])
-PLANS["C19"] = dict(suites=[Suite("bevy", 300, 15000, crate="bevy")], floors={"quick": dict(BEVY_FLOORS["quick"], **{"key-changes-by-chain": 20, "two-animator-apps": 30})}, extra=extra_bevy,
+PLANS["C19"] = dict(suites=[Suite("bevy", 300, 15000, crate="bevy")], floors={"quick": dict(BEVY_FLOORS["quick"], **{"key-changes-by-chain": 8, "two-animator-apps": 30})}, extra=extra_bevy,
                     recognisers={"c19_other_animator": rec_c19_other_animator},
                     assumptions=["as C18; both relative orders of chain_animations/select_animation and of animate<Q>/chain_animations are modelled"])
 
@@ -1122,11 +1122,13 @@ def extra_macro(prop, tier, seed, profiles):
     return res
 
 
-MACRO_FLOORS = {"quick": {"accepted": 1000, "rejected": 200}}
-PLANS["C15"] = dict(suites=[Suite("mtl", 4000, 200000, crate="macro")], floors={"quick": dict(MACRO_FLOORS["quick"], **{"merged": 100, "compiled-cases": 40})}, extra=extra_macro,
+# floors sit at about half of what seed 1 reaches: they are there to notice a generator that stops reaching a branch, not to
+# constrain the random stream of other seeds
+MACRO_FLOORS = {"quick": {"accepted": 700, "rejected": 120}}
+PLANS["C15"] = dict(suites=[Suite("mtl", 4000, 200000, crate="macro")], floors={"quick": dict(MACRO_FLOORS["quick"], **{"merged": 100, "compiled-cases": 25})}, extra=extra_macro,
                     assumptions=["the model starts at token level; syn's tokenisation and literal parsing are exercised by the correspondence (real source text, real parser), not modelled; hex/octal/binary literal forms are outside the generated grammar",
                                  "quote! emission and rustc's compilation of the emitted code are exercised by the compiled program family (lib/compiled.py: generated sentences really compiled through the macro and compared with builder calls rendered from the model's reading), not modelled"])
-PLANS["C16"] = dict(suites=[Suite("manim", 3000, 150000, crate="macro")], floors={"quick": dict(MACRO_FLOORS["quick"], **{"compiled-cases": 30})}, extra=extra_macro,
+PLANS["C16"] = dict(suites=[Suite("manim", 3000, 150000, crate="macro")], floors={"quick": dict(MACRO_FLOORS["quick"], **{"compiled-cases": 18})}, extra=extra_macro,
                     assumptions=["the outer block structure (default clause, arms) is taken as parsed; arm bodies go through the timeline! token model"])
 def extra_c08_derive(prop, tier, seed, profiles):
     """C08 on the derive: the generated `update` / `start_with` touch exactly the animated fields — an excluded field, or a
